@@ -215,6 +215,39 @@ def verdict_guards(ctx, body, vcalls):
                 out[node] = 'pos'
             else:
                 out[node] = 'other'
+    # folds: `let c = verdict.unwrap_or_else(|e| { record(e); false })` / `.unwrap_or(false)`: the Ok payload, or a constant for Err
+    for c in body.calls.values():
+        if body.blocks[c.bb]['cleanup'] or c.name not in ('unwrap_or_else', 'unwrap_or', 'unwrap_or_default') or 'Result' not in (c.impl_self or ''):
+            continue
+        if not c.args or not (vb & {o.key for o in body.orig_operand(c.args[0]) if o.kind == 'call'}):
+            continue
+        errv = None
+        if c.name == 'unwrap_or_default':
+            errv = False
+        elif c.name == 'unwrap_or' and c.args[1][0] == 'k':
+            errv = c.args[1][1].get('int') == '1'
+        elif c.name == 'unwrap_or_else':
+            for o in body.orig_operand(c.args[1]):
+                if o.kind == 'aggr':
+                    cid = body.blocks[o.key[0]]['stmts'][o.key[1]]['rv']['ak'].get('closure')
+                    cb = body.facts.bodies.get(cid)
+                    if cb is not None:
+                        vals = {q.key for q in cb.orig_local(0) if q.kind == 'const'}
+                        if len(vals) == 1 and len(cb.orig_local(0)) == 1:
+                            errv = next(iter(vals)) == '1'
+        if errv is None:
+            continue
+        folds = getattr(body, '_verdict_folds', {})
+        folds[c.bb] = errv
+        body._verdict_folds = folds
+        # guards directly on the folded value
+        for (bb, k), g in body.guards.items():
+            if g.kind == 'bool' and g.origins and all(o.kind == 'call' and o.key == c.bb for o in g.origins):
+                t = g.truth()
+                if t is True:
+                    out[('e', bb, k)] = 'pos' if not errv else 'other'   # true: Ok(true) [or a failed check folded to `true`: not a clean positive]
+                elif t is False:
+                    out[('e', bb, k)] = 'neg-false' if not errv else 'neg-false'
     # flags: a bool local assigned in the verdict arms (`let ok = match v { Ok(b) => b, Err(e) => { ..; false } }`, `Ok(c) => !c`)
     for bb, blk in enumerate(body.blocks):
         t = blk['term']
@@ -793,7 +826,9 @@ def rule_bottomup(ctx):
         ao = ts.orig_operand(a.args[1])
         good = all(o.kind == 'arg' for o in ao) and len(ao) == 1
         R.ob('BU-S3-node', key, good, 'the task scheduled is the one whose dependency was checked' if good else 'scheduled node origin: %s' % ts.describe_origins(ao), ctx.where(ts, a.bb), props=('C03', 'C04'))
-    R.floor('BU-S3', 'negative verdict edges in try-schedule', len(negs), 2, props=('C03', 'C18'))
+    folds = getattr(ts, '_verdict_folds', {})
+    covered = len(negs) + (1 if any(v is False for v in folds.values()) else 0)  # a fold to `false` merges the Err and the Ok(false) outcome into one edge
+    R.floor('BU-S3', 'negative verdict outcomes (failed check, inconsistent) handled in try-schedule', covered, 2, props=('C03', 'C18'))
 
     # S5: bottom-up make-consistent exit guards
     mk = bu['bu_make']
@@ -1119,6 +1154,25 @@ RESULT_ERASERS = ('unwrap', 'expect', 'unwrap_or', 'unwrap_or_default', 'unwrap_
                   'unwrap_unchecked', 'is_ok_and', 'unwrap_or_else', 'iter', 'into_iter')
 
 
+def _records_and_folds_false(ctx, b, c):
+    """`result.unwrap_or_else(|e| { errors.push(e); false })`: the error is recorded and the dependency counts as inconsistent"""
+    if c.name != 'unwrap_or_else' or len(c.args) < 2:
+        return False
+    for o in b.orig_operand(c.args[1]):
+        if o.kind == 'aggr':
+            cid = b.blocks[o.key[0]]['stmts'][o.key[1]]['rv']['ak'].get('closure')
+            cb = ctx.F.bodies.get(cid)
+            if cb is None:
+                continue
+            ret = cb.orig_local(0)
+            folds_false = len(ret) == 1 and all(q.kind == 'const' and q.key == '0' for q in ret)
+            pushes = [x for x in cb.calls.values() if x.qname == 'std::vec::Vec::push' and all(q.kind == 'arg' and q.key == 2 for q in cb.orig_operand(x.args[1]))]
+            on_all = bool(pushes) and not any(r in cb.reach([0], avoid=lambda n: n in {p.bb for p in pushes}) for r in cb.returns())
+            if folds_false and on_all:
+                return True
+    return False
+
+
 def rule_error_discipline(ctx):
     """C18 X5: every Result that can carry a checker error from a validation-time check is propagated
     (`?`), matched on, or returned; it is never unwrapped (abort) or flattened to a value (swallowed)."""
@@ -1133,7 +1187,7 @@ def rule_error_discipline(ctx):
         for s in srcs:
             n += 1
             users = [c for c in b.calls.values() if c.args and c.args[0][0] in ('c', 'm') and s.bb in ctx.base_call_bbs(b.orig_operand(c.args[0]))
-                     and 'Result' in (c.impl_self or '') and c.name in RESULT_ERASERS]
+                     and 'Result' in (c.impl_self or '') and c.name in RESULT_ERASERS and not _records_and_folds_false(ctx, b, c)]
             good = not users
             matched = any(s.bb in ctx.base_call_bbs(g.origins) for g in b.guards.values())
             returned = s.bb in ctx.base_call_bbs(b.orig_local(0))
